@@ -47,8 +47,30 @@ def build():
     return time.time() - t0
 
 
+def dsim_exec_raw(prop, program, timeout=120, extra=()):
+    p = subprocess.run([BIN, "exec", "--prop", prop] + list(extra), input=json.dumps(program), text=True,
+                       stdout=subprocess.PIPE, stderr=subprocess.DEVNULL, timeout=timeout)
+    out = p.stdout.strip().splitlines()
+    try:
+        return json.loads(out[-1])
+    except Exception:
+        return {}
+
+
 def dsim_exec(prop, program, timeout=120):
     """Runs one program in a fresh process. Returns (status, violations)."""
+    if prop == "C04":
+        # C04 also compares two separate processes, one of them with shifted global counters / heap
+        try:
+            a = dsim_exec_raw(prop, program, timeout)
+            b = dsim_exec_raw(prop, program, timeout, extra=("--perturb",))
+        except subprocess.TimeoutExpired:
+            return "violation", [{"prop": prop, "rule": "no-progress", "msg": "run did not finish", "facts": {}}]
+        vs = list(a.get("violations", []))
+        if a.get("trace_hash") != b.get("trace_hash"):
+            vs.append({"prop": prop, "rule": "cross-process", "facts": {},
+                       "msg": "the same seeded model produced different histories in two processes (trace hashes %s vs %s)" % (a.get("trace_hash"), b.get("trace_hash"))})
+        return ("violation" if vs else a.get("status", "invalid")), vs
     try:
         p = subprocess.run([BIN, "exec", "--prop", prop], input=json.dumps(program), text=True,
                            stdout=subprocess.PIPE, stderr=subprocess.DEVNULL, timeout=timeout)
@@ -187,18 +209,36 @@ def run_chunks(prop, tier, seed, total, jobs, workdir, known_path, extra_args=()
             out = os.path.join(workdir, "chunk-%d-%d.json" % (ci, cur))
             cmd = [BIN, "run", "--prop", prop, "--tier", tier, "--seed", str(seed), "--from", str(cur),
                    "--to", str(b), "--out", out, "--known", known_path] + list(extra_args)
+            crash = None
+            tmo = PROPS[prop].get("chunk_timeout", {"quick": 240, "thorough": 7200})[tier] if isinstance(PROPS[prop].get("chunk_timeout", {}), dict) else PROPS[prop]["chunk_timeout"]
+            proc = subprocess.Popen(cmd, stdout=subprocess.PIPE, stderr=subprocess.DEVNULL, text=True)
             try:
-                p = subprocess.run(cmd, stdout=subprocess.PIPE, stderr=subprocess.DEVNULL, text=True,
-                                   timeout=PROPS[prop].get("chunk_timeout", 1800))
-                crash = None
+                stdout, _ = proc.communicate(timeout=tmo)
+            except subprocess.TimeoutExpired:
+                # ask the worker which run index it is stuck in (its SIGABRT handler prints it), then make sure it is gone
+                proc.send_signal(6)
+                try:
+                    stdout, _ = proc.communicate(timeout=10)
+                except subprocess.TimeoutExpired:
+                    proc.kill()
+                    stdout, _ = proc.communicate()
+                crash = "TIMEOUT"
+                for line in (stdout or "").splitlines():
+                    if line.startswith("CRASH"):
+                        crash = "TIMEOUT " + line
+                stdout = ""
+
+            class _P:
+                pass
+            p = _P()
+            p.returncode = proc.returncode
+            p.stdout = stdout or ""
+            if crash is None:
                 for line in p.stdout.splitlines():
                     if line.startswith("CRASH"):
                         crash = line
                 if p.returncode < 0 and crash is None:
                     crash = "CRASH signal=%d index=unknown" % -p.returncode
-            except subprocess.TimeoutExpired:
-                crash = "TIMEOUT"
-                p = None
             if crash:
                 rep_all.append({"crash": crash, "from": cur, "to": b, "out": out})
                 stop_after[0] = ci if stop_after[0] is None else min(stop_after[0], ci)
@@ -255,7 +295,29 @@ def check(prop, tier, seed, runs=None, jobs=None):
     shutil.rmtree(workdir, ignore_errors=True)
     os.makedirs(workdir)
     t_run = time.time()
-    reports = run_chunks(prop, tier, seed, total, jobs, workdir, KNOWN)
+    reports = run_chunks(prop, tier, seed, total, jobs, workdir, KNOWN, extra_args=(("--hashes",) if prop == "C04" else ()))
+    cross = None
+    if prop == "C04":
+        # second pass: same run indices in other processes (different chunking), after a seed-derived number of
+        # warm-up simulations and a heap prelude; the per-index trace hashes must be identical
+        wd2 = os.path.join(workdir, "pass2")
+        os.makedirs(wd2)
+        rep2 = run_chunks(prop, tier, seed, total, max(1, jobs - 3), wd2, KNOWN, extra_args=("--hashes", "--perturb"))
+        h1, h2 = {}, {}
+        for reps, h in ((reports, h1), (rep2, h2)):
+            for r in reps:
+                f = r.get("out", "") + ".hashes"
+                if os.path.exists(f):
+                    for line in open(f):
+                        i, hv = line.split()
+                        h[int(i)] = hv
+        diff = sorted(i for i in h1 if i in h2 and h1[i] != h2[i])
+        cross = {"compared": len(set(h1) & set(h2)), "different": len(diff)}
+        if diff:
+            idx = diff[0]
+            g = subprocess.run([BIN, "gen", "--prop", prop, "--tier", tier, "--seed", str(seed), "--index", str(idx)], stdout=subprocess.PIPE, text=True)
+            reports.append({"violation": {"index": idx, "rule": "cross-process", "facts": {}, "program": json.loads(g.stdout),
+                                          "msg": "run %d: trace hash %s in one process, %s in another (after warm-up simulations)" % (idx, h1[idx], h2[idx])}})
     run_s = time.time() - t_run
 
     harness_errors = [r for r in reports if "harness_error" in r]
@@ -295,7 +357,7 @@ def check(prop, tier, seed, runs=None, jobs=None):
             g = subprocess.run([BIN, "gen", "--prop", prop, "--tier", tier, "--seed", str(seed), "--index", str(idx)],
                                stdout=subprocess.PIPE, text=True)
             program = json.loads(g.stdout)
-            rule = "no-progress" if r["crash"] == "TIMEOUT" else "crash"
+            rule = "no-progress" if r["crash"].startswith("TIMEOUT") else "crash"
             v = {"index": idx, "rule": rule, "msg": r["crash"], "facts": {}, "program": program}
         elif r.get("violation"):
             v = r["violation"]
@@ -374,6 +436,7 @@ def check(prop, tier, seed, runs=None, jobs=None):
             "build_s": round(build_s, 1),
             "run_s": round(run_s, 1),
             "exhaustive": False,
+            "cross_process_comparison": cross,
         },
         "assumptions": cfg["assumptions"],
         "wall_s": round(wall, 2),
